@@ -16,6 +16,9 @@
         `as_analyze_map`, `check_fix` refuses an offset below `single_vox_offset` for a single-file class (`chkOffset`),
         extensions carried iff the conversion table (`Nb.Gen.C11.State.carriesExt`, regenerated from the class
         hierarchy) says so
+  * `Nifti1Header.as_byteswapped`  (859-867) + `WrapStruct.as_byteswapped` (wrapstruct.py 418-477) — `.byteswap`:
+        same byte order → `copy()`; other order → new header of the same class, field values kept, NEW list with the
+        SAME extension objects iff the class has the override (`Nb.Gen.C11.State.byteswapCarries`, regenerated)
   * `AnalyzeImage.__init__`        (analyze.py 925-934) — `World.mkImg`: `from_header` + "reset consumable" offset 0
   * `Nifti1Header.write_to`        (880-906)  — `World.saveHdr`: sizes (every extension synced), offset rule, the field
         is MODIFIED when it was unset, block, extender, records
@@ -145,6 +148,7 @@ inductive XOp (Obj : Type) where
   | del (h i : Nat)
   | share (h i h2 pos : Nat)                                             -- `hdr2.extensions.insert(pos, hdr.extensions[i])`
   | copy (h : Nat)
+  | byteswap (h : Nat) (target : Option Endian)                          -- `hdr.as_byteswapped(None | '<' | '>')`
   | fromHeader (h : Nat) (cls : String) (fmt : Fmt) (single : Bool)
   | mkImg (h : Nat) (cls : String) (fmt : Fmt) (single : Bool)
   | setOff (h : Nat) (off : Nat)
@@ -228,6 +232,16 @@ def saveImgCore (w : World Obj) (hd : XHdr) (data : List Nat) : World Obj × XOb
     | .error e => (w1, .err e)
     | .ok p => (w1, .imgSaved (.pair p (readPair hd.fmt hd.endian p data.length)))
 
+def _root_.Nb.C11.Endian.flip : Endian → Endian
+  | .le => .be
+  | .be => .le
+
+/-- byte order `hdr.as_byteswapped(target)` produces: the one asked for, or (None) the swapped order when the header
+    is native and the native order otherwise -/
+def swapTarget (machine : Endian) (cur : Endian) : Option Endian → Endian
+  | some e => e
+  | none => if cur = machine then machine.flip else machine
+
 /-- one operation; `machine` = byte order of the host (a header converted to ANOTHER class is native) -/
 def step (machine : Endian) (w : World Obj) : XOp Obj → World Obj × XObs Obj
   | .newRaw h pos c code raw => w.addCell h pos (XCell.ofRaw c code raw)
@@ -266,6 +280,15 @@ def step (machine : Endian) (w : World Obj) : XOp Obj → World Obj × XObs Obj
     match w.hdrs[h]? with
     | none => (w, .bad)
     | some hd => ({ w with hdrs := w.hdrs ++ [{ hd with isImg := false }] }, .done)
+  | .byteswap h target =>
+    match w.hdrs[h]? with
+    | none => (w, .bad)
+    | some hd =>
+      let tgt := swapTarget machine hd.endian target
+      -- same order: `return self.copy()`; other order: the override re-attaches the extensions (generated table)
+      let carries := tgt = hd.endian ∨ Nb.Gen.C11.State.byteswapCarries.contains hd.cls = true
+      ({ w with hdrs := w.hdrs ++ [{ hd with endian := tgt, refs := if carries then hd.refs else [], isImg := false }] },
+       .done)
   | .fromHeader h cls fmt single =>
     match w.hdrs[h]? with
     | none => (w, .bad)
